@@ -726,11 +726,17 @@ class Differential:
             except Exception as e:      # noqa
                 ctx.notes.append("interpreter cross-check did not run: %s" % e)
         reported = 0
+        flagged = []
         for ep, oi, om in zip(episodes, si, sm):
             ofail = split_known(ctx, oracle(ep, oi)) if oracle else []
             d = first_diff([self.project(x) for x in oi], om)
             if not ofail and d is None:
                 continue
+            flagged.append((ep, oi, om, ofail, d))
+        # episodes on which the property oracle fails are reported first: a concrete failing input is worth more than
+        # a bare disagreement between model and implementation
+        flagged.sort(key=lambda x: 0 if x[3] else 1)
+        for ep, oi, om, ofail, d in flagged:
             if ofail and d is None and self.confirm:
                 again = 0
                 for _ in range(self.confirm):
@@ -802,7 +808,7 @@ class Differential:
                     "what": "property oracle fails on the implementation's own outputs",
                     "oracle_fn": "%s:%s" % (getattr(oracle, "__module__", ""), getattr(oracle, "__qualname__", "")),
                     "oracle_failures": (oracle(small, oi2) or ofail)[:5], "ops": small, "impl_outputs": oi2,
-                    "original_episode_len": len(ep)})
+                    "original_episode_len": len(ep), "oracle_only": True})
         return reported
 
     def shrink(self, ep, pred):
